@@ -325,15 +325,25 @@ Proof.
   pose proof (pow2_pos psh ltac:(lia)) as P. simpl usable_size. split; nia.
 Qed.
 
-(* the full-strength statement (every 64-bit request) is false in the code as it is *)
+(* full strength: for EVERY 64-bit request above the large limit, either the allocator refuses
+   (returns NULL) or the pages it maps hold the request after the header *)
+Lemma fact_huge_guard : HUGE_OVERFLOW_GUARD = true.
+Proof. reflexivity. Qed.
+
 Definition huge_fit_full : Prop := forall psh size, page_shift_ok psh -> LARGE_SIZE_LIMIT < size < W64 ->
-  size <= usable_size psh (BHuge (huge_pages psh size)).
-Lemma huge_wrap_refuted : ~ huge_fit_full.
+  match huge_request psh size with
+  | Some pages => size <= usable_size psh (BHuge pages) /\ 1 <= pages /\ pages * 2 ^ psh < W64
+  | None => W64 - 1 - SPAN_HEADER_SIZE - 2 ^ psh < size      (* refused only when size + header + page overflows *)
+  end.
+Lemma huge_fit : huge_fit_full.
 Proof.
-  intro F. specialize (F 12 (W64 - 1)). unfold page_shift_ok in F.
-  assert (C : W64 - 1 <= usable_size 12 (BHuge (huge_pages 12 (W64 - 1)))).
-  { apply F. lia. vm_compute. split; reflexivity. }
-  vm_compute in C. apply C. reflexivity.
+  intros psh size Hp Hs. unfold huge_request. rewrite fact_huge_guard. cbn [andb].
+  pose proof bounds as (B1 & B2 & B3 & B4 & B5 & _).
+  destruct (W64 - 1 - SPAN_HEADER_SIZE - 2 ^ psh <? size) eqn:G; [apply Z.ltb_lt in G; exact G|].
+  apply Z.ltb_ge in G. unfold page_shift_ok in Hp. pose proof (pow2_pos psh ltac:(lia)) as P.
+  destruct (huge_fits psh size Hp ltac:(lia) ltac:(lia)) as [F1 F2]. split; [assumption|]. split; [assumption|].
+  unfold huge_pages. rewrite u64_small by lia.
+  destruct (round_up_count_spec (size + SPAN_HEADER_SIZE) psh ltac:(lia) ltac:(lia)) as (R1 & R2 & R3). lia.
 Qed.
 
 (* ------------------------------------------------------------------ *)
